@@ -96,6 +96,9 @@ theorem fileCopy_exact (fs : Fs) (src dst : Bytes) (fie : Bool) (fault : SfFault
       by_cases hdir : fd.isDir = true
       · rw [if_pos hdir] at h; simp at h
       · rw [if_neg hdir] at h ⊢
+        by_cases hsame : sameFile fs0 fd dst = true
+        · rw [if_pos hsame] at h; simp at h
+        rw [if_neg hsame] at h ⊢
         have hdir' : fd.isDir = false := by simpa using hdir
         obtain ⟨d, hget, hpne⟩ := hfile hdir'
         obtain ⟨d', hres⟩ := sysOpen_rdonly_resolve fs0 fs0 src fd ho hdir'
